@@ -26,7 +26,7 @@ def spec_entry(D, S, h, Vr, Er, Ec, T):
 class GetRateMatrix(Contract):
     target = f"{REL}::SQRA.get_rate_matrix"
     variants = ("csr", "coo")
-    property_ids = ("C01",)
+    property_ids = ("C01", "C14")
 
     def setup(self, V, variant):
         ctx = V.ctx
